@@ -30,7 +30,9 @@ def compileProg (udp : Bool) (limit epLimit : Nat) (prog : String) : List Act :=
     else if st == "p" then acc ++ pingProg udp
     else
       let k := (st.drop 1).toString.toNat?.getD 0
-      if st.startsWith "g" then acc ++ doProg udp 1 epLimit limit k
+      if st.startsWith "s" then acc ++ sleepProg k
+      else if st.startsWith "n" then acc ++ doNonProg udp 1 epLimit limit k
+      else if st.startsWith "g" then acc ++ doProg udp 1 epLimit limit k
       else if st.startsWith "h" then acc ++ doProg udp (100 + k) epLimit limit k
       else if st.startsWith "o" then acc ++ observeProg udp 1 epLimit limit k
       else acc) []
@@ -44,7 +46,9 @@ def stuckCause (s : State) : Option String :=
       | .acquire _ _ :: _ => some "limiter"
       -- the 20 s deadline is DoObserve's (NewObservation's select); a `Do` waits in doInternal's select, which has a
       -- replacement request before it in today's source
-      | .wait (.delivered _) _ :: _ => if lp.deadline - lp.callStart == 20000 then some "observe" else some "do"
+      | .wait (.delivered k) _ :: _ =>
+        if k ≥ sleepBase then some "app"      -- the application's own pause inside a handler
+        else if lp.deadline - lp.callStart == 20000 then some "observe" else some "do"
       | .wait .ponged _ :: _ => some "ping"
       | .wait (.acked _) _ :: _ => some "ack"
       | _ => none
@@ -156,7 +160,7 @@ def resName : Nat → String
 def fmtLog : LogEv → Option String
   | .start m => if m < 100000 then some s!"s{m}" else none
   | .finish m => if m < 100000 then some s!"e{m}" else none
-  | .nested k r el => some s!"n{k}:{resName r}:{el}"
+  | .nested k r el => if k ≥ sleepBase then none else some s!"n{k}:{resName r}:{el}"     -- the application's own pauses are not logged
 
 def addOutside (s : State) (prog : List Act) : State :=
   let lp : Loop := { idleLoop with doneClosed := true, reading := true, pc := .running, prog := prog }
